@@ -293,3 +293,11 @@ def resort(t):
         a, b = sorted((t[2], t[3]), key=repr)
         return ("call", t[1], a, b)
     return t
+
+
+def contains_call(t, name):
+    if isinstance(t, tuple):
+        if len(t) >= 2 and t[0] == "call" and t[1] == name:
+            return True
+        return any(contains_call(x, name) for x in t)
+    return False
